@@ -21,7 +21,7 @@ def run(tier, seed):
     V, cov2 = concfam.run_conc("C10", tier, seed, jobs, GUARDS, step_guards=concfam.STEP_GUARDS, mc=("MiPage", ("MiPage_mc.cfg", "MiPage_mc_thorough.cfg")), guided_progs=("page-delete",),
                                V=V, finish=False)
     cov["concurrent"] = {k: cov2[k] for k in ("states", "transitions", "mc_module", "mc_config", "traces_validated_against_impl", "trace_events_validated",
-                                              "schedules_generated_by_tlc", "programs", "strategies")}
+                                              "schedules_generated_by_tlc", "program_names", "strategies")}
     cov["traces_validated_against_impl"] += cov2["traces_validated_against_impl"]
     cov["samples"] = cov["samples"] + cov2["samples"][:2]
     return V.finish("model_checking", cov, assumptions=[
